@@ -7,14 +7,16 @@ CONSTANTS
   Len0s = {0, 1, 2}
   Sizes = {0, 1, 3, 5}
   ExtExact = {0, 1, 3, 5}
-  ExtNoHint = {1, 5}
-  ExtUnder = {1, 3, 5}
-  ExtOver = {0, 1, 3}
+  ExtNoHint = {5}
+  ExtUnder = {1, 5}
+  ExtOver = {0, 3}
   AdvSizes = {0, 1, 2}
-  Avails = {0, 2, 5}
+  Avails = {2, 5}
   CapAts = {0, 1, 3, 5}
   CapAts2 = {1, 3}
+  OverKinds = {"plus1", "total"}
+  TouchCaps = {5}
 VIEW View
 INVARIANTS InitLeSpare Nested Contents OwnerBytes Untouched
-PROPERTIES Frame WriteBack Refusal SliceReported
+PROPERTIES Frame WriteBack Refusal SliceReported RefusedCounts
 CHECK_DEADLOCK FALSE
